@@ -619,11 +619,22 @@ type reverseSegmentScanner struct {
 // newReverseSegmentScanner creates a scanner that iterates from the given
 // offset backwards.
 func newReverseSegmentScanner(segment *segment, startOffset int64) *reverseSegmentScanner {
-	// Convert log offset to index entry offset
-	entryOffset := startOffset - segment.BaseOffset
+	// Find the index slot of the last entry whose offset is at or below the
+	// start offset. Slots only map one-to-one to offsets in a segment without
+	// gaps, which is not the case after compaction.
+	var (
+		n     = int(segment.Index.CountEntries())
+		entry = &entry{}
+	)
+	slot := sort.Search(n, func(i int) bool {
+		if err := segment.Index.ReadEntryAtLogOffset(entry, int64(i)); err != nil {
+			return true
+		}
+		return entry.Offset > startOffset
+	}) - 1
 	return &reverseSegmentScanner{
 		s:   segment,
-		ris: newReverseIndexScanner(segment.Index, entryOffset),
+		ris: newReverseIndexScanner(segment.Index, int64(slot)),
 	}
 }
 
